@@ -181,9 +181,38 @@ def oracle(ctx, exes, monitor, scale_ps):
     return bad, len(cases)
 
 
+def _tree_hash(ctx):
+    """content hash of everything a harness binary depends on: /repo headers (VERIF_REPO aware), kit, the harness sources"""
+    import hashlib
+    h = hashlib.sha256()
+    roots = [os.path.join(ctx.repo, 'include'), os.path.join(ctx.root, 'harness')]
+    files = []
+    for r in roots:
+        for dp, dn, fn in os.walk(r):
+            files += [os.path.join(dp, f) for f in fn]
+    files += [os.path.join(ctx.pdir, f) for f in ('harness.cpp', 'harness_hist.cpp')]
+    for f in sorted(files):
+        h.update(f.encode()); h.update(open(f, 'rb').read())
+    return h.hexdigest()
+
+
 def build_all(ctx):
+    """builds the 4 harness binaries in parallel; a binary is reused only when the content hash of all its inputs (headers of the
+    tree under test included) is unchanged, so a changed /repo always means a fresh build"""
     jobs = [('harness.cpp', 'harness', [])] + [('harness_hist.cpp', 'hist%d' % i, ['-DC03_PART=%d' % i]) for i in (1, 2, 3)]
-    res = ctx.cxx_many(jobs)
+    san = '.san' if ctx.tier == 'thorough' else ''
+    key = _tree_hash(ctx) + san
+    stamp = os.path.join(ctx.build, 'harness.stamp' + san)
+    paths = {x: os.path.join(ctx.build, x + san) for (_, x, _) in jobs}
+    if os.path.exists(stamp) and open(stamp).read() == key and all(os.path.exists(p) for p in paths.values()):
+        ctx.log('harness binaries up to date (content hash of sources + headers unchanged)')
+        res = paths
+    else:
+        if os.path.exists(stamp):
+            os.remove(stamp)
+        res = ctx.cxx_many(jobs)
+        if all(res.get(x) for x in paths):
+            open(stamp, 'w').write(key)
     exes = {i: res.get('hist%d' % i) for i in (1, 2, 3)}
     return res.get('harness'), exes
 
